@@ -556,8 +556,16 @@ class PeriodicCondition(Condition):
             self.periodic_interval.boundary_right, n_points=n_points
         ).make_static()
 
-        tmp_left_sampler = self.left_sampler * self.non_periodic_sampler
-        tmp_right_sampler = self.right_sampler * self.non_periodic_sampler
+        # samplers for the pre-evaluation of the data functions: the same row-wise
+        # pairing of boundary and non-periodic points as in forward (not their product),
+        # built from separate samplers since sampling through the static
+        # self.left_sampler would cache the joined points in it
+        tmp_left_sampler = GridSampler(
+            self.periodic_interval.boundary_left, n_points=n_points
+        ).append(self.non_periodic_sampler)
+        tmp_right_sampler = GridSampler(
+            self.periodic_interval.boundary_right, n_points=n_points
+        ).append(self.non_periodic_sampler)
         if self.non_periodic_sampler.is_static:
             tmp_left_sampler = tmp_left_sampler.make_static()
             tmp_right_sampler = tmp_right_sampler.make_static()
